@@ -62,6 +62,7 @@ type WRep struct {
 	Rev   int64  `json:"rev"`
 	Size  int64  `json:"size"`
 	Clone string `json:"clone"` // NA | completed | error
+	Polls int    `json:"polls,omitempty"` // number of clone-status polls answered with "" (not yet published) first
 	Cp    int    `json:"cp"`    // 0 = none
 }
 
@@ -121,6 +122,7 @@ type fakeRep struct {
 	applied []int
 	size    int64
 	clone   string
+	polls   int
 }
 
 type instance struct {
@@ -421,6 +423,11 @@ func (in *instance) GetCloneStatus() (string, error) {
 	defer in.lock()()
 	if in.h.flt(in.rep.a, "clone") {
 		return "", errors.New("clone status failed")
+	}
+	if in.rep.polls > 0 {
+		// the clone has not published its status yet
+		in.rep.polls--
+		return "", nil
 	}
 	return in.rep.clone, nil
 }
@@ -878,7 +885,7 @@ func runCase(cs Case) Out {
 		h.results = append(h.results, make(chan string, 16))
 	}
 	for a, wr := range cs.World {
-		r := &fakeRep{a: a, mode: "INIT", rev: wr.Rev, size: wr.Size, clone: wr.Clone}
+		r := &fakeRep{a: a, mode: "INIT", rev: wr.Rev, size: wr.Size, clone: wr.Clone, polls: wr.Polls}
 		for _, n := range wr.Chain {
 			r.chain = append(r.chain, fmt.Sprintf("u%d", n))
 		}
